@@ -4,7 +4,6 @@ from core import *  # noqa
 from roles import *  # noqa
 import roles, shared, symex
 import rules_C14
-from rules_C01 import find_respond_impl
 
 EXPLANATION = (
     "Error-path structure decided on MIR (kernel behaviour is not): an incomplete head or an incomplete pre-read body can only end in an Err "
@@ -18,124 +17,77 @@ TRUSTED = ["rustc MIR", "the kernel reports a vanished peer as EOF or one of the
 def run(ctx):
     facts = ctx.facts
     roles.bind(facts)
-    rnl = roles.inherent(facts, CC, "read_next_line")
-    cc_read = roles.inherent(facts, CC, "read")
-    nr = facts.fn("request::new_request")
+    import rules_C12, rules_C03, request_rules as RR, parser_rules as PRS, framing_rules as FRM, absint
+    import queue_rules as Q
+    nr = FRM.fmodel(facts).nr0
 
-    # ---- C15.1 incomplete head
-    f = rnl
-    ctx.touch(f)
-    ok_none = ok_err = False
-    for bb in sorted(f.live_blocks()):
-        sw = switch_on_discr(f, bb)
-        if sw and sw[0].get("adt") == "std::option::Option" and origin_has_call(f.origin_place(sw[0]["pl"]), r"Bytes<.*> as std::iter::Iterator>::next$"):
-            rv, m, otherwise, rest = sw
-            nt = m.get("None", otherwise if "None" in rest else None)
-            outs = shared.eval_from(f, nt)
-            ok_none = bool(outs) and all(st.read_key((0,))[0] == "agg" and st.read_key((0,))[2] == "Err" for p, st in outs)
-    for bb, t in f.calls():
-        if re.search(r"Try>?::branch$", call_name(t)) and origin_has_call(f.origin(t["args"][0]), r"Bytes<.*> as std::iter::Iterator>::next$"):
-            rs = shared.result_switch(f, bb) if False else None
-            dl = t["dest"]["l"]
-            for b2 in sorted(f.live_blocks()):
-                sw = switch_on_discr(f, b2)
-                if sw and not sw[0]["pl"]["p"] and sw[0]["pl"]["l"] == dl:
-                    rv, m, otherwise, rest = sw
-                    bt = m.get("Break", otherwise if "Break" in rest else None)
-                    region = shared.arm_region(f, bt)
-                    ok_err = any(f.term(b)["t"] == "call" and f.term(b).get("callee") == "std::ops::FromResidual::from_residual" and f.term(b)["dest"] == {"l": 0, "p": []} for b in region) \
-                        and not any(call_matches(f.term(b), r"from_ascii$") for b in f.reach([bt], unwind=False) if f.term(b)["t"] == "call")
-    ctx.ob("C15.1", "%s|eof-mid-line-is-error" % f.id, "end of stream in the middle of a line is an error (no partial line is returned)", ok_none, "%s:%d" % (f.file, f.line))
-    ctx.ob("C15.1", "%s|io-error-propagates" % f.id, "an I/O error while reading a line is returned, not swallowed", ok_err, "%s:%d" % (f.file, f.line))
-    g = cc_read
-    ctx.touch(g)
-    req_ok = {bb for bb, i, s in g.assigns() if s["lhs"] == {"l": 0, "p": []} and s["rhs"].get("variant") == "Ok"}
-    nrc = set(g.call_blocks(lambda t: call_matches(t, r"^request::new_request$")))
-    for k, bb in enumerate(g.call_blocks(lambda t: call_is(t, rnl.id))):
-        rs = shared.result_switch(g, bb)
-        ok = rs is not None and rs.get("err") is not None and not (g.reach([rs["err"]], unwind=False) & (req_ok | nrc))
-        ctx.paths += 1
-        ctx.ob("C15.1", "%s|line-error-builds-no-request|%d" % (g.id, k), "when a head line cannot be read completely, no Request is built", ok, g.loc(bb))
+    # ---- C15.1 incomplete head: end of stream / an I/O error in a head line is an error; no request is built; next() then stops silently
+    rules_C12.eof_rules(ctx, "C15.1")
+    PRS.trace_and_judge(ctx, "C15.1", "C15.1", only=lambda label: label in ("end of stream in the head", "I/O error while buffering the body"))
 
     # ---- C15.2 incomplete buffered body
-    f = nr
-    ctx.touch(f)
-    req_cons = {bb for h, bb, s in facts.constructions(REQ) if h.id == f.id}
-    pre = [(bb, t) for bb, t in f.calls() if t.get("callee") == "std::io::Read::read" and f.in_loop(bb)]
-    if len(pre) != 1:
-        # the body is fetched some other way (read_to_end / take / a single read): look for the completeness test instead
-        anyread = [bb for bb, t in f.calls() if t.get("callee") in ("std::io::Read::read", "std::io::Read::read_to_end", "std::io::Read::read_exact")]
-        exact = [bb for bb, t in f.calls() if t.get("callee") == "std::io::Read::read_exact"]
-        ctx.ob("C15.2", "%s|eof-in-body-builds-no-request" % f.id, "end of stream before the declared small body is complete yields an error, not a Request with a partial body",
-               bool(exact), f.loc(anyread[0]) if anyread else f.file,
-               None if exact else "the parse-time read of a small body is neither the checked read loop nor read_exact: nothing makes a short body an error")
-        return c15_rest(ctx, facts, nr)
-    pb, pt = pre[0]
-    rs = shared.result_switch(f, pb)
-    ok = rs is not None and rs.get("err") is not None and not (f.reach([rs["err"]], unwind=False) & req_cons)
-    ctx.ob("C15.2", "%s|read-error-builds-no-request" % f.id, "an I/O error while pre-reading the body yields an error, not a Request", ok, f.loc(pb))
-    zero_ok = False
-    for bb in sorted(f.reach([rs["ok"]] if rs else [], blocked={pb}, unwind=False)):
-        bs = bool_switch(f, bb)
-        if not bs:
-            continue
-        o = f.origin(bs[0])
-        if o[0] == "binop" and o[1] == "Eq" and o[3][0] == "const" and o[3][1] == 0 and any(x[0] == "downcast" and x[2] in ("Continue", "Ok") for x in origin_walk(o[2])):
-            r_ = f.reach([bs[1]], unwind=False)
-            outs = shared.eval_from(f, bs[1])
-            is_err = bool(outs) and all(st.read_key((0,))[0] == "agg" and st.read_key((0,))[2] == "Err" for p, st in outs)
-            zero_ok = is_err and not (r_ & req_cons) and pb not in r_
-    ctx.ob("C15.2", "%s|eof-in-body-builds-no-request" % f.id, "end of stream before the declared small body is complete yields an error, not a Request with a partial body", zero_ok, f.loc(pb))
-
+    rules_C03.preread_rules(ctx, "C15.2")
+    FM = FRM.fmodel(facts)
+    bad = []
+    n = 0
+    for r in FM.rows:
+        p = r["path"]
+        for bb, c in p.conds:
+            if c and c[0] == "variant" and c[2] in ("Err", "Break") and c[3] and absint.head_call(c[3]) is not None and re.search(r"std::io::Read::read$| as std::io::Read>::read$", absint.head_call(c[3])[1]):
+                n += 1
+                if r["kind"] != "err":
+                    bad.append(Q._ret_str(p)[:80])
+    ctx.ob("C15.2", "%s|read-error-builds-no-request" % nr.id, "an I/O error while pre-reading the body yields an error, not a Request", n > 0 and not bad, "%s:%d" % (nr.file, nr.line), None if not bad else str(bad[:3]))
     return c15_rest(ctx, facts, nr)
+
+
+def io_error(kind):
+    return ("call", "std::io::Error::new", [("agg", "std::io::ErrorKind", kind, {}), ("const", "x", '"x"', None)], -1, "")
 
 
 def c15_rest(ctx, facts, nr):
     # ---- C15.3 answering a vanished client succeeds
-    ri = find_respond_impl(facts)
-    ctx.touch(ri)
-    icc = [h for k, h in facts.local_fns.items() if h.rec.get("impl_self_adt") == REQ and h.argc == 1 and h.local_ty(1).startswith("std::result::Result<(), std::io::Error>") and h.local_ty(0) == h.local_ty(1)]
-    ctx.require(len(icc) == 1, "C15.3: error filter of respond_impl not found")
-    icc = icc[0]
-    for what, rx in (("print", r"raw_print$"), ("flush", r"Write>?::flush$|impl std::io::Write for .*>::flush$")):
-        bbs = [bb for bb, t in ri.calls() if call_matches(t, rx)]
-        ctx.require(len(bbs) == 1, "C15.3: %s call in respond_impl" % what)
-        dl = ri.term(bbs[0])["dest"]["l"]
-        uses = [u for u in ri.uses().get(dl, []) if u[0] == "term" and u[2]["t"] == "call"]
-        ok = len(uses) == 1 and call_is(uses[0][2], icc.id)
-        ctx.ob("C15.3", "%s|%s-result-filtered" % (ri.id, what), "the result of the %s goes through the client-closing-error filter before it can fail the answer" % what, ok, ri.loc(bbs[0]))
-    clos = facts.find_fns(r"^" + re.escape(icc.id) + r"::\{closure#0\}$")
-    ctx.require(clos, "C15.3: filter closure")
-    c = clos[0]
-    o = icc.origin_place({"l": 0, "p": []})
-    ok = o[0] == "call" and o[1].endswith("Result::<T, E>::or_else") and o[2][0] == ("arg", 1)
-    ctx.ob("C15.3", "%s|filters-its-argument" % icc.id, "the filter only rewrites the Err case of its argument", ok, "%s:%d" % (icc.file, icc.line))
-    sw = None
-    for bb in sorted(c.live_blocks()):
-        s2 = switch_on_discr(c, bb)
-        if s2 and s2[0].get("adt") == "std::io::ErrorKind":
-            sw = s2
-            break
-    ctx.require(sw is not None, "C15.3: match on ErrorKind")
-    rv, m, otherwise, rest = sw
-    okset = set()
-    for v, tgt in m.items():
-        outs = shared.eval_from(c, tgt)
-        if outs and all(st.read_key((0,))[0] == "agg" and st.read_key((0,))[2] == "Ok" for p, st in outs):
-            okset.add(v)
-    need = {"BrokenPipe", "ConnectionAborted", "ConnectionReset"}
-    ctx.ob("C15.3", "%s|closing-kinds-become-ok" % c.id, "BrokenPipe, ConnectionAborted and ConnectionReset are turned into success", need <= okset, "%s:%d" % (c.file, c.line), str(sorted(okset)))
-    outs = shared.eval_from(c, otherwise)
-    ok = bool(outs) and all(st.read_key((0,))[0] == "agg" and st.read_key((0,))[2] == "Err" for p, st in outs)
-    ctx.ob("C15.3", "%s|other-kinds-stay-errors" % c.id, "any other error is still reported", ok, "%s:%d" % (c.file, c.line))
-    kind_ok = origin_has_call(c.origin_place(rv["pl"]), r"std::io::Error::kind$")
-    ctx.ob("C15.3", "%s|matches-error-kind" % c.id, "the decision is made on the error's kind()", kind_ok, "%s:%d" % (c.file, c.line))
-    rdrop = method(facts, T_DROP, REQ, "drop")
-    for bb, t in rdrop.calls():
-        if call_is(t, ri.id):
-            dl = t["dest"]["l"]
-            used = [u for u in rdrop.uses().get(dl, []) if not (u[0] == "term" and u[2]["t"] == "drop")]
-            ctx.ob("C15.3", "%s|drop-ignores-result" % rdrop.id, "the automatic answer of a dropped Request ignores any I/O error", not used, rdrop.loc(bb))
+    import request_rules as RR, absint
+    import queue_rules as Q
+    RM = RR.rmodel(facts)
+    respond = RM.methods["respond"]
+    where = "%s:%d" % (respond.file, respond.line)
+    closing = ("BrokenPipe", "ConnectionAborted", "ConnectionReset")
+    other = ("PermissionDenied", "Other", "InvalidData")
+    for step, rx in (("print", RR.RAW_PRINT), ("flush", r"std::io::Write::flush$| as std::io::Write>::flush$|impl std::io::Write for .*>::flush$")):
+        for kind in closing + other:
+            def on_call(bb, t, args, st, _rx=rx, _kind=kind):
+                n = call_name(t)
+                if re.search(_rx, n) or (step == "flush" and t.get("callee") == "std::io::Write::flush"):
+                    return ("agg", "std::result::Result", "Err", {"0": io_error(_kind)})
+                if step == "flush" and re.search(RR.RAW_PRINT, n):
+                    return ("agg", "std::result::Result", "Ok", {"0": ("unit",)})
+                if step == "print" and (t.get("callee") == "std::io::Write::flush" or re.search(r" as std::io::Write>::flush$", n)):
+                    return ("agg", "std::result::Result", "Ok", {"0": ("unit",)})
+                return absint.io_model(bb, t, args, st)
+            f, ps = RM.run(respond, extra={(2,): RR.RESPONSE}, on_call=on_call)
+            ctx.paths += len(ps)
+            rets = [p.ret() for p in ps if p.end[0] == "return"]
+            if kind in closing:
+                ok = bool(rets) and all(r[0] == "agg" and r[2] == "Ok" for r in rets)
+                txt = "a client that has gone away while the response is %s (%s) makes respond() return success" % ("printed" if step == "print" else "flushed", kind)
+            else:
+                ok = bool(rets) and all(r[0] == "agg" and r[2] == "Err" for r in rets)
+                txt = "any other error while the response is %s (%s) is still reported" % ("printed" if step == "print" else "flushed", kind)
+            ctx.ob("C15.3", "%s|%s-fails-%s" % (respond.id, step, kind), txt, ok, where, None if ok else str([symex.sym_str(r)[:60] for r in rets][:3]))
+    # the destructor's automatic answer ignores any I/O error (no panic, no propagation possible)
+    g = RM.drop
+    def on_call2(bb, t, args, st):
+        if re.search(RR.RAW_PRINT, call_name(t)):
+            return ("agg", "std::result::Result", "Err", {"0": io_error("PermissionDenied")})
+        return absint.io_model(bb, t, args, st)
+    f = RM.fn(g)
+    st = symex.Sym(f)
+    st.write_key(RM.key(RM.self_base(g), RM.wslot), ("some", RR.WRITER))
+    allp = absint.explore(f, 0, st, on_call=on_call2, max_paths=4000)
+    panics = [p for p in allp if p.end[0] == "diverge" and any(re.search(r"unwrap_failed|expect_failed|panic", e[2]) for e in p.calls()[-1:]) and
+              any(c and c[0] == "variant" and c[2] == "Err" and absint.head_call(c[3]) is None for bb, c in p.conds)]
+    ctx.ob("C15.3", "%s|drop-ignores-result" % g.id, "the automatic answer of a dropped Request ignores any I/O error (it is neither unwrapped nor propagated)", bool(allp) and not panics, "%s:%d" % (g.file, g.line))
 
     # ---- C15.4 no panic on the I/O-error paths (same census as C14.B)
     res = rules_C14.panic_census(ctx, "C15.4")
